@@ -20,8 +20,10 @@ if [ "$seed" != "-" ]; then
   [ -f "$p" ] || p=$seed
   git -C $base/repo apply $p || git -C $base/repo apply -C1 $p
 fi
+tag=$(basename $(dirname $seed) 2>/dev/null); [ "$tag" = "." ] && tag=$seed
 for c in "$@"; do
-  (cd $base/verif && ./check $c 2>&1 | grep -vE "^WARNING conda" | sed "s/^/[$seed $c] /" | cut -c1-400)
-  echo "[$seed $c] exit ${PIPESTATUS[0]}"
+  (cd $base/verif && ./check $c > $base/last.out 2>&1; echo $? > $base/last.rc)
+  grep -vE "^WARNING conda" $base/last.out | grep -E "^(VIOLATION|KNOWN|MACHINERY|NOTE|  [^ ]|C[0-9][0-9] )" | sed "s/^/[$tag $c] /" | cut -c1-400 | head -${ISO_LINES:-12}
+  echo "[$tag $c] exit $(cat $base/last.rc)"
 done
 git -C $base/repo checkout -q -- .
